@@ -56,6 +56,12 @@ def mirror_table(rep, F, fn, sink_pat, rule='R-SIGN'):
                     tt = TB.deref(term)
                     if tt[0] == 'call' and re.search(r'is_zero$|is_one$', TB._plain(tt[1])):
                         env[tt] = 0
+            # contract of the magnitude kernel: its result is non-negative (an in-place re-sign tests it against sign(x))
+            for atoms, out in paths:
+                for term, _ in atoms:
+                    for st_ in TB.subterms(term):
+                        if st_[0] == 'call' and re.search(r'BigInt::sign$|BigDecimal::sign$', TB._plain(st_[1])) and st_[2] and TB.find_calls(st_[2][0], sink_pat):
+                            env[st_] = ('variant', 'Sign', 'Plus')
             ev = TB.Evaluator(F.raw['enums'], env)
             try:
                 atoms, out = ev.select(paths)
